@@ -1,6 +1,7 @@
 package props
 
 import (
+	"strconv"
 	"fmt"
 	"os"
 	"sync"
@@ -166,6 +167,12 @@ func (sc *Scenario) RunOnce(ch *vx.Chooser, keepLog bool) (res *ExecResult) {
 	}
 	nsetup := len(w.Reqs)
 	st := &runState{next: make([]int, len(sc.Clients)+1), infl: make([]*world.Req, len(sc.Clients)+1), faults: sc.Faults, sendAlt: sc.SendAlt, crashes: sc.Crashes, sweeps: map[string]int{}, commitFaults: sc.CommitFaults, lates: sc.Lates}
+	if v := os.Getenv("VERIF_LATES"); v != "" && !sc.AtomicRequests {
+		// experiment switch: stale reads in every scenario
+		if n, err := strconv.Atoi(v); err == nil && n > st.lates {
+			st.lates = n
+		}
+	}
 	for k, v := range sc.Sweeps {
 		st.sweeps[k] = v
 	}
